@@ -434,7 +434,9 @@ type c18Spec struct {
 	content, dmg, slname   string
 	edits                  []c18Edit
 	sizes                  []int
-	mode                   int // 0 error, 1 wound raw, 2 wound + aggregate
+	mode                   int  // 0 error, 1 wound raw, 2 wound + aggregate
+	route                  int  // how the bytes reach the pool's writer (c18_bowl.go); 0 = the writer itself
+	closeAfterFail         bool // error mode, routes writer/entry: the caller closes the writer after a failed Write
 	maxSize, fileIndex     int64
 	model                  bool // false: oracle only (content too irregular for a run-length encoded Coq term)
 	prefix                 string
@@ -492,7 +494,14 @@ func c18VPool(c *Ctx) error {
 			return err
 		}
 	}
-	return nil
+	// through the pool bowl (entry writer / transposition): fixed cases, then a random stream; placed
+	// last so that the streams above stay what they were for a given seed
+	for _, s := range c18BowlCorpus() {
+		if err := c18RunVP(c, s); err != nil {
+			return err
+		}
+	}
+	return c18BowlStream(c)
 }
 
 // c18Corpus: weak-hash-preserving damages at fixed places in every mode, then fixed boundary cases
@@ -644,36 +653,12 @@ func c18RunVP(c *Ctx, s *c18Spec) error {
 			}
 		}
 	}
-	w, err := vp.GetWriter(fileIndex)
+	// the bytes reach the pool's writer directly or through the pool bowl (c18_bowl.go); `sizes` becomes
+	// the Write calls as issued on that route
+	outcome, okWrites, sizes, err := c18Deliver(vp, s.route, fileIndex, written, other, sizes, mode >= 1, s.closeAfterFail)
 	if err != nil {
 		return err
 	}
-	outcome := "Done"
-	okWrites := 0
-	pos := 0
-	for _, sz := range sizes {
-		nw, err := w.Write(written[pos : pos+sz])
-		pos += sz
-		if err != nil {
-			outcome = "Failed"
-			break
-		}
-		if nw != sz {
-			outcome = "Short"
-			break
-		}
-		okWrites++
-	}
-	closedOK := true
-	if outcome == "Done" {
-		if err := w.Close(); err != nil {
-			outcome = "Failed"
-			closedOK = false
-		}
-	} else if mode >= 1 {
-		w.Close()
-	}
-	_ = closedOK
 	if mode >= 1 {
 		close(vp.Wounds)
 		<-done
@@ -682,8 +667,11 @@ func c18RunVP(c *Ctx, s *c18Spec) error {
 	sb := blocksOf(signed, bs64)
 	wb := blocksOf(written, bs64)
 	oracle := ""
-	class := fmt.Sprintf("%s/mode%d/%s", s.prefix, mode, strings.SplitN(dmg, "@", 2)[0])
-	input := map[string]interface{}{"signedSize": len(signed), "writtenSize": len(written), "content": s.content, "damage": dmg, "slicing": slname, "writes": sizes, "mode": mode, "fileIndex": fileIndex, "maxSize": maxSize}
+	class := c18Class(s)
+	input := map[string]interface{}{"route": c18RouteNames[s.route], "signedSize": len(signed), "writtenSize": len(written), "content": s.content, "damage": dmg, "slicing": slname, "writes": sizes, "mode": mode, "fileIndex": fileIndex, "maxSize": maxSize}
+	if s.closeAfterFail && mode == 0 {
+		input["closeAfterFail"] = true
+	}
 	if len(s.edits) > 0 {
 		input["edits"] = s.edits // bytes changed by a weak-hash related damage: offset in the file, signed value, written value
 	}
@@ -737,6 +725,12 @@ func c18RunVP(c *Ctx, s *c18Spec) error {
 		}
 		cs := &lib.Case{Group: "vperr", Class: class, Nontrivial: len(sizes) >= 2 && len(written) > bs64,
 			Input: input, Obs: map[string]interface{}{"outcome": outcome, "okWrites": okWrites, "innerBytes": len(innerBytes)}, Oracle: oracle}
+		if oracle != "" && c18MatchCloseAfterReject(s, outcome, bad, innerBytes) {
+			// known finding; the model describes a writer that is left alone after a failed Write, so the
+			// case is judged by the oracle only
+			cs.Finding = c18FindingCloseAfterReject
+			s.model = false
+		}
 		if s.model {
 			var sk []string
 			for _, b := range inner.Written[fileIndex] {
